@@ -104,7 +104,14 @@ def gen_history(rng, layout: tuple[str, str], max_steps: int) -> dict:
     pool = FAMILIES[fam][:nclients] if rng.random() < 0.5 else rng.sample(FAMILIES[fam], nclients)
     steps = []
     for _ in range(n):
-        steps.append({"client": rng.choice(pool), "codes": gen_codes(rng), "force": rng.random() < 0.6})
+        st = {"client": rng.choice(pool), "codes": gen_codes(rng), "force": rng.random() < 0.6}
+        if core == st["client"] + ".core" and rng.random() < 0.6:
+            st["core_omitted"] = True   # default embedded core of this client, later shared by the others
+        steps.append(st)
+    if core.rsplit(".", 1)[0] in FAMILIES[fam] and rng.random() < 0.5:
+        # the scenario "first the hosting client with its default core, then the others point at it"
+        host = core.rsplit(".", 1)[0]
+        steps.insert(0, {"client": host, "codes": gen_codes(rng), "force": rng.random() < 0.5, "core_omitted": True})
     return {"core": core, "steps": steps}
 
 
@@ -113,6 +120,9 @@ def enum_two_step(layout: tuple[str, str]) -> list[dict]:
     fam, core = layout
     calls = [{"client": c, "codes": s, "force": f} for c in FAMILIES[fam][:2] for s in BASE_SPECS[:2]
              for f in (True, False)]
+    for c in FAMILIES[fam][:2]:
+        if core == c + ".core":  # the hosting client may also be generated with its default core
+            calls += [{"client": c, "codes": s, "force": f, "core_omitted": True} for s in BASE_SPECS[:2] for f in (True, False)]
     return [{"core": core, "steps": [dict(a), dict(b)]} for a, b in itertools.product(calls, calls)]
 
 
@@ -186,8 +196,10 @@ def run_history(hist: dict) -> dict:
     claimed: list[str] = []
     try:
         for st in hist["steps"]:
-            g = pipeline.generate(make_spec(st["client"], st["codes"]), package=st["client"], core_package=core_pkg,
-                                  force=st["force"], root=root)
+            # core_omitted: the client that hosts the core is generated WITHOUT core_package (default <client>.core)
+            assert not st.get("core_omitted") or core_pkg == st["client"] + ".core"
+            g = pipeline.generate(make_spec(st["client"], st["codes"]), package=st["client"],
+                                  core_package=None if st.get("core_omitted") else core_pkg, force=st["force"], root=root)
             if g.ok and st["client"] not in claimed:
                 claimed.append(st["client"])
             core_dir = root / core_pkg.replace(".", "/")
@@ -295,7 +307,8 @@ def c_case(case: dict) -> str:
     codes = lambda cs: clist(str(c) for c in cs)  # noqa: E731
     reg = lambda r: clist(cpair(cstr(k), codes(v)) for k, v in r)  # noqa: E731
     calls = clist(f"{{| g_client := {cstr(s['client'])}; g_codes := {codes(declared(s['codes']))}; "
-                  f"g_force := {cbool(s['force'])} |}}" for s in h["steps"])
+                  f"g_force := {cbool(s['force'])}; g_core_given := {cbool(not s.get('core_omitted'))} |}}"
+                  for s in h["steps"])
     obs = clist(cpair(copt(o["registry"], reg), copt(o["aliases"], codes), reg(o["clients"]), cbool(o["ok"]))
                 for o in case["obs"])
     return f"(({lay}, {calls}), {obs})"
@@ -338,6 +351,8 @@ def main(chk, replay: dict | None = None) -> int:
         dist["force_calls"] += sum(1 for s in h["steps"] if s["force"])
         dist["noforce_calls"] += sum(1 for s in h["steps"] if not s["force"])
         dist["calls_raising"] += sum(1 for o in c["obs"] if not o["ok"])
+        dist["calls_without_core_package"] = dist.get("calls_without_core_package", 0) + sum(
+            1 for s in h["steps"] if s.get("core_omitted"))
         dist["repeated_client"] += int(len({s["client"] for s in h["steps"]}) < len(h["steps"]))
         dist["oracle_failures"] += int(bool(c["oracle_fail"]))
     chk.cov["input_distribution"] = dist
